@@ -14,6 +14,9 @@
 //! request : C12.limit \t <api> \t <file> ...   the same program, run in a child process under `ulimit -v 2000000` and
 //!           `timeout 60` (resource test, not compared with the model); observe: `tokens <n>` | `resource-exhausted`
 //! observe : `ok <token spellings separated by blanks>` | `err <PreprocessError variant>` | `panic <file>: <message>`
+//! deviation classes (`Dev`): only *classify* a disagreement with the reference; the ones repaired in the code (9f7cdb8:
+//!   paste-in-api-define, duplicate-api-define; f08088c: line-end-before-parenthesis; d66a6d7: pragma-once-by-include-name)
+//!   are no longer offered as explanations, so a return of the defect is `unexplained`
 use crate::util::*;
 use std::collections::{BTreeMap, BTreeSet};
 use std::rc::Rc;
